@@ -1,12 +1,15 @@
 //! One module per property. Each exposes `pub fn run(run: &mut Run) -> &'static str` (returns its rule text).
 pub mod common;
 pub mod hist;
+pub mod searchlib;
 
 pub mod c01;
 pub mod c02;
 pub mod c03;
+pub mod c04;
 pub mod c06;
 pub mod c07;
+pub mod c08;
 pub mod c10;
 pub mod c11;
 pub mod c15;
@@ -17,15 +20,17 @@ pub mod c20;
 
 use crate::framework::Run;
 
-pub const ALL: [&str; 12] = ["C01", "C02", "C03", "C06", "C07", "C10", "C11", "C15", "C16", "C18", "C19", "C20"];
+pub const ALL: [&str; 14] = ["C01", "C02", "C03", "C04", "C06", "C07", "C08", "C10", "C11", "C15", "C16", "C18", "C19", "C20"];
 
 pub fn dispatch(id: &str, run: &mut Run) -> Option<&'static str> {
     match id {
         "C01" => Some(c01::run(run)),
         "C02" => Some(c02::run(run)),
         "C03" => Some(c03::run(run)),
+        "C04" => Some(c04::run(run)),
         "C06" => Some(c06::run(run)),
         "C07" => Some(c07::run(run)),
+        "C08" => Some(c08::run(run)),
         "C10" => Some(c10::run(run)),
         "C11" => Some(c11::run(run)),
         "C15" => Some(c15::run(run)),
